@@ -1898,11 +1898,18 @@ insert_list:
         auto& counter = CURRENT->semaphore_count;
         counter = count;
         DEFER(counter = 0);
+        bool resumed = false;
         while (!try_subtract(count)) {
+            uint64_t cnt;
+            if (unlikely(resumed) && !m_ooo_resume && (cnt = m_count.load())) {
+                // resumed by signal(), but the tokens were taken by a wait()
+                // that did not queue: before going to the tail of the queue,
+                // pass what is left on to the waiters behind
+                try_resume(cnt);
+            }
             int ret = waitq::wait_defer(timeout, spinlock_unlock, &splock);
             splock.lock();  // assuming errno NOT changed
             if (unlikely(ret < 0)) {    // got interrupted
-                uint64_t cnt;
                 if (!m_ooo_resume && (cnt = m_count.load())) {
                     auto eno = errno;
                     try_resume(cnt);
@@ -1910,6 +1917,7 @@ insert_list:
                 }
                 return ret;
             }
+            resumed = true;
         }
         return 0;
     }
